@@ -1,7 +1,7 @@
 (* Executable model of the session layer of asyncfix (asyncfix/connection.py, session.py and the
    journal / codec operations they call), at MESSAGE level: a decoded message is its message type
    plus the ordered list of (tag, value) strings; bytes never appear here.  The model follows the
-   Python line by line, including its defects (ledger rows D11, D15, D20, D22, ...; D10 and D12 are repaired in the code).
+   Python line by line, including its defects (ledger rows D11, D15, D20, ...; D10, D12, D22, D27 are repaired in the code).
    No proofs here: see AF.Lemmas.Session*.v and AF.Props.C04 / C11 / C05.
 
    Conventions
@@ -222,6 +222,15 @@ Definition try_ {A} (c : M A) : M (option A) := fun w =>
   | inr _ => mkR (inl None) (rw r) (re r)
   end.
 
+(* try: c  finally: f   -- f runs whatever c did; c's outcome stands unless f itself raises *)
+Definition finally_ {A} (c : M A) (f : M unit) : M A := fun w =>
+  let r := c w in
+  let r2 := f (rw r) in
+  match rv r2 with
+  | inl _ => mkR (rv r) (rw r2) (re r ++ re r2)
+  | inr x => mkR (inr x) (rw r2) (re r ++ re r2)
+  end.
+
 (* ------------------------------------------------------------------ journal operations *)
 
 Definition has_key (k : Z) (rows : list (Z * msg)) : bool := existsb (fun r => fst r =? k) rows.
@@ -392,6 +401,7 @@ Definition R_COMP : str := [67%N].     (* "C" *)
 Definition R_NOSEQ : str := [83%N].    (* "S" *)
 Definition R_LOW : str := [76%N].      (* "L" *)
 Definition R_TESTID : str := [84%N].   (* "T" *)
+Definition R_GARBLED : str := [71%N].  (* "G" *)
 
 Inductive vres := VOk | VTrue | VStr (code : str) | VExc (x : exn).
 
@@ -407,7 +417,7 @@ Definition validate_integrity (c : cfg) (m : msg) (w : world) : vres :=
           | None => VStr R_NOSEQ
           | Some v =>
               match py_int v with
-              | None => VExc XValue
+              | None => VStr R_GARBLED        (* except ValueError: "MsgSeqNum(34) is not a number" *)
               | Some n =>
                   if (n <? nin w)
                      && negb (match mkind m with KSeqReset => true | _ => false end)
@@ -564,6 +574,14 @@ Definition finalize (m : msg) (now : Z) : M unit :=
 
 (* --- _process_message --- *)
 
+(* the LOGOUT branch of the pre-handlers: the peer's Logout, when in sequence, is counted and journaled before
+   the session is torn down (_message_last_time is deliberately left alone) *)
+Definition logout_counted (c : cfg) (m : msg) : M unit :=
+  n <- lift (get_int T34 m) ;;
+  w1 <- getw ;;
+  (if n =? nin w1 then set_next_num_in m ;;; persist_in m else ret tt) ;;;
+  process_logout c m.
+
 (* the try body up to and including _check_seqnum_gaps.
    None = one of the early returns; Some b = is_valid_msg_num *)
 Definition pre_handlers (c : cfg) (m : msg) (w : world) : M unit :=
@@ -571,7 +589,7 @@ Definition pre_handlers (c : cfg) (m : msg) (w : world) : M unit :=
   match mkind m with
   | KLogon => process_logon c m
   | KSeqReset => process_seqreset c m
-  | KLogout => process_logout c m
+  | KLogout => logout_counted c m
   | _ => ret tt
   end.
 
@@ -590,9 +608,14 @@ Definition part1 (c : cfg) (m : msg) : M (option bool) :=
   else
     pre_handlers c m w ;;; gap_check c m.
 
+(* a ResendRequest that could not be served must not leave the state in RESENDREQ_HANDLING for ever *)
+Definition restore_handling : M unit :=
+  w <- getw ;;
+  if st w =? ST_HANDLING then state_set ST_ACTIVE else ret tt.
+
 Definition dispatch (c : cfg) (m : msg) (valid : bool) : M unit :=
   match mkind m with
-  | KResend => process_resend c m
+  | KResend => finally_ (process_resend c m) restore_handling
   | KSeqReset => ret tt
   | KLogon => ret tt
   | KTestReq => process_testrequest c m
